@@ -889,8 +889,11 @@ class Walker:
 
         # ---- maps and sets
         if name in ('contains_key', 'contains') and len(args) == 2 and _is_coll_type(recv_ty):
+            if _is_map_type(recv_ty) or _is_set_type(recv_ty):
+                self.emit('query', n, pc, coll=recv, key=args[1], name=name, recv_ty=recv_ty)
             return mk_bool(Atom(('is', ('get', recv, args[1]), 'Some')))
         if name in ('get', 'get_mut') and len(args) == 2 and (_is_map_type(recv_ty) or _is_set_type(recv_ty)):
+            self.emit('query', n, pc, coll=recv, key=args[1], name=name, recv_ty=recv_ty)
             return ('get', recv, args[1])
         if name == 'get' and len(args) == 2:
             self.emit('call', n, pc, **data)
